@@ -91,8 +91,9 @@ fn extension_group(input: Input<'_>) -> ParserResult<'_, SequenceComponent> {
             }
             SequenceComponent::Member(SequenceOrSetMember {
                 is_recursive: false,
+                // A group may consist of `COMPONENTS OF` notations only
                 name: String::from(INTERNAL_EXTENSION_GROUP_NAME_PREFIX)
-                    + &members.first().unwrap().name,
+                    + members.first().map_or("", |m| m.name.as_str()),
                 tag: None,
                 ty: ASN1Type::Sequence(SequenceOrSet {
                     components_of,
